@@ -302,8 +302,35 @@ def _with_dtype(sd, dtype, plain=False):
     return new
 
 
-def _elem(sd, lo=-30.0, hi=30.0, orders=ORDERS):
-    return vs.element_descs(sd, orders=orders, lo=lo, hi=hi)
+SPECIALS = ['nan', 'nan', 'inf', '-inf', '-0.0']
+POSITIONS = ['first', 'middle', 'last']
+
+
+def _position(pos, n):
+    return {'first': 0, 'middle': n // 2, 'last': n - 1}[pos]
+
+
+def _plant_into(ed, leafpos, entrypos, value):
+    """Record a special value in the leaf array descriptor at the given
+    (component, entry) position class; floating dtypes only."""
+    leaves = build.flatten_values(ed)
+    leaf = leaves[_position(leafpos, len(leaves))]
+    if np.dtype(leaf['dtype']).kind not in 'fc':
+        return
+    leaf.setdefault('plant', []).append([entrypos, value])
+
+
+@st.composite
+def _elem(draw, sd, lo=-30.0, hi=30.0, orders=ORDERS, p_special=4):
+    """Element descriptor; one in ``p_special`` carries NaN / inf / -inf /
+    -0.0 at first / middle / last component and entry."""
+    ed = draw(vs.element_descs(sd, orders=orders, lo=lo, hi=hi))
+    if np.dtype(_sd_dtype(sd)).kind in 'fc' and _one_in(draw, p_special):
+        for _ in range(draw(st.sampled_from([1, 1, 2, 3]))):
+            _plant_into(ed, draw(st.sampled_from(POSITIONS)),
+                        draw(st.sampled_from(POSITIONS)),
+                        draw(st.sampled_from(SPECIALS)))
+    return ed
 
 
 @st.composite
@@ -448,7 +475,8 @@ def _case(draw):
     shape = _sd_shape(sd)
     nd = len(shape) if shape is not None else 1
     desc = {'method': method, 'ekind': ekind, 'space': sd,
-            'x': draw(_elem(sd))}
+            'x': draw(_elem(sd, p_special=2 if method == 'legacy_red'
+                            else 4))}
     kw = {}
 
     if method == 'legacy_red':
@@ -728,6 +756,21 @@ def enumerate_cases(tier):
                                          'data': _fixed_elem(sd, 4)}
                         desc['pos'] = 0
                     yield desc
+    # legacy reductions with one special value at every position class
+    for ekind in ('tensor', 'discr', 'pspace'):
+        sd = _fixed_space(ekind, 'float64')
+        if ekind == 'pspace':
+            sd = dict(sd, power=3)
+        for red in ('sum', 'prod', 'min', 'max'):
+            for value in ('nan', 'inf', '-inf', '-0.0'):
+                for leafpos in (POSITIONS if ekind == 'pspace'
+                                else ['first']):
+                    for entrypos in POSITIONS:
+                        ed = _fixed_elem(sd)
+                        _plant_into(ed, leafpos, entrypos, value)
+                        yield {'method': 'legacy_red', 'ekind': ekind,
+                               'space': sd, 'ufunc': red, 'x': ed,
+                               'kwargs': {}, 'out': [None]}
     # every axis subset (positive and negative spelling) of a 3-d and a 2-d
     # element for reduce, every axis for accumulate
     import itertools
@@ -769,6 +812,10 @@ EXHAUSTIVE = {
     'thorough': ['same sweep over all 9 dtypes'],
 }
 for _t in EXHAUSTIVE:
+    EXHAUSTIVE[_t].append(
+        'x.ufuncs.sum/prod/min/max() with NaN, inf, -inf or -0.0 at the '
+        'first / middle / last entry of the first / middle / last component '
+        'of a tensor, discretized and three-component power-space element')
     EXHAUSTIVE[_t].append(
         'np.add / np.maximum .reduce over every subset of axes (absent, '
         'None, int, tuple; positive, negative and mixed spelling) and '
@@ -815,10 +862,16 @@ def _unaligned(vals):
 
 
 def _build_array(ad, dtype=None, shape=None):
-    """`build.build_array` plus the 'unaligned' layout."""
-    if ad.get('order') == 'unaligned':
-        return _unaligned(build.array_values(ad, dtype, shape))
-    return build.build_array(ad, dtype, shape)
+    """`build.build_array` plus the 'unaligned' layout and planted special
+    values (``ad['plant'] = [[position class, 'nan'|'inf'|'-inf'|'-0.0']]``,
+    flat C index first / middle / last)."""
+    vals = build.array_values(ad, dtype, shape)
+    if ad.get('plant') and vals.dtype.kind in 'fc' and vals.size:
+        flat = vals.reshape(-1)
+        for pos, value in ad['plant']:
+            flat[_position(pos, flat.size)] = float(value)
+        _MODE['special'] += 1
+    return _lay(vals, ad.get('order', 'C'))
 
 
 def _stack(sd, ed):
@@ -860,7 +913,8 @@ INEXACT = {'arccos', 'arccosh', 'arcsin', 'arcsinh', 'arctan', 'arctan2',
            'log1p', 'log2', 'logaddexp', 'logaddexp2', 'power', 'float_power',
            'sin', 'sinh', 'tan', 'tanh', 'cbrt', 'hypot'}
 ULP_FALLBACK = 16
-_MODE = {'lenient': False, 'tolerated': 0, 'unaligned': 0, 'unaligned_na': 0}
+_MODE = {'lenient': False, 'tolerated': 0, 'unaligned': 0, 'unaligned_na': 0,
+         'special': 0}
 
 
 def _same(a, b, ufunc=None):
@@ -1158,8 +1212,12 @@ RETRY_CLAUSES = ('|value|', '|out-value|', '|operand-modified|',
 RETRIES = 3
 
 
-def _layout_strata(out):
-    """Count the cases in which an array handed to ODL was unaligned."""
+def _layout_strata(out, desc):
+    """Count the cases in which an array handed to ODL was unaligned / held
+    planted special values."""
+    if _MODE['special']:
+        out.strata.append('values=special')
+        out.strata.append('values=special|' + desc['ekind'])
     if _MODE['unaligned']:
         out.strata.append('layout=unaligned')
     elif _MODE['unaligned_na']:
@@ -1179,9 +1237,9 @@ def run_case(desc):
     with warnings.catch_warnings():
         warnings.simplefilter('ignore')
         _MODE['lenient'] = False
-        _MODE['unaligned'] = _MODE['unaligned_na'] = 0
+        _MODE['unaligned'] = _MODE['unaligned_na'] = _MODE['special'] = 0
         try:
-            return _layout_strata(_dispatch(desc))
+            return _layout_strata(_dispatch(desc), desc)
         except Violation as v:
             if not any(c in v.signature + '|' for c in RETRY_CLAUSES):
                 raise
@@ -1202,7 +1260,7 @@ def run_case(desc):
             finally:
                 _MODE['lenient'] = False
                 del junk
-            out = _layout_strata(out)
+            out = _layout_strata(out, desc)
             out.notes = dict(out.notes or {})
             out.notes['numpy_kernel_flip_retried'] = 1
             if _MODE['tolerated']:
@@ -1733,17 +1791,28 @@ def _run_legacy_red(desc):
         if g.dtype.kind != r.dtype.kind:
             raise Violation(sig('dtype', 'scalar'), '{} vs {}'.format(
                 g.dtype, r.dtype))
-        if r.dtype.kind in 'fc' and red in ('sum', 'prod'):
-            n = flat.size
-            eps = np.finfo(r.dtype).eps
-            with np.errstate(all='ignore'):
-                scale = (np.sum(np.abs(flat.astype(np.complex128)))
-                         if red == 'sum' else abs(complex(r)))
-                err = abs(complex(g) - complex(r))
-            ok = (err <= 4 * n * eps * scale) or _same(
-                g.astype(r.dtype), r) or not np.isfinite(scale)
-        else:
-            ok = _same(g.astype(r.dtype), r)
+        with np.errstate(all='ignore'):
+            gv, rv = g.astype(r.dtype)[()], r[()]
+            if r.dtype.kind not in 'fc':
+                ok = _same(gv, rv)
+            elif not np.isfinite(rv):
+                # NaN / infinities propagate whatever the association
+                # (complex: component patterns may differ)
+                ok = _same(gv, rv) if r.dtype.kind == 'f' else bool(
+                    np.isnan(gv) == np.isnan(rv) and
+                    np.isinf(gv) == np.isinf(rv))
+            elif red in ('sum', 'prod'):
+                n = flat.size
+                eps = np.finfo(r.dtype).eps
+                fin = flat[np.isfinite(flat)]
+                scale = (np.sum(np.abs(fin.astype(np.complex128)))
+                         if red == 'sum' else abs(complex(rv)))
+                ok = bool(abs(complex(gv) - complex(rv)) <=
+                          4 * n * eps * scale)
+            else:
+                # min / max: the same number (which of +0.0 / -0.0 wins
+                # depends on the association)
+                ok = bool(gv == rv)
         if not ok:
             raise Violation(sig('value', 'scalar'),
                             'got {!r} numpy {!r}'.format(got, ref))
@@ -1937,6 +2006,7 @@ REQUIRED_STRATA = [
     'partition:reduced2of3', 'np-rejects:odl-rejects',
     'rejected:discr-reduce-keepdims', 'rejected:discr-reduceat',
     'rejected:discr-outer-nonelement', 'shares-memory', 'layout:F',
-    'layout=unaligned', 'layout:unaligned',
+    'layout=unaligned', 'layout:unaligned', 'values=special|tensor',
+    'values=special|discr', 'values=special|pspace',
     'layout:strided', 'layout:rev', 'at:first', 'at:full',
 ]
